@@ -20,7 +20,7 @@ CLASSIFY = None
 
 def streams(ctx):
     n = 8 if ctx.thorough else 1
-    return [("scripts", "script", 600 * n), ("tagged", "tagged", 300 * n), ("perturbed", "perturbed", 200 * n), ("arbitrary-baits", "baits", 200 * n)]
+    return [("scripts", "script", 500 * n), ("same-named-contigs", "dupnames", 300 * n), ("tight-scripts", "tightscript", 100 * n), ("tagged", "tagged", 300 * n), ("perturbed", "perturbed", 200 * n), ("arbitrary-baits", "baits", 150 * n), ("tagged-slivers", "slivers", 200 * n)]
 
 
 def gen(ctx, kind):
@@ -35,6 +35,9 @@ def run(ctx):
     for stream, kind, n in streams(ctx):
         cases = [gen(ctx, kind) for _ in range(n)]
         R.run_cases(ctx, stream, cases, PROJ, oracle, classify)
+    # the CLI end to end (info yaml, file names, csv files) on a sample of the same generators
+    cli_cases = [gen(ctx, kind) for stream, kind, n in streams(ctx) for _ in range(max(10, n // 12))]
+    R.run_cli_cases(ctx, "cli-end-to-end", cli_cases, classify, only=["haplotig", "yaml"])
 
 
 def search(ctx, broken):
